@@ -122,7 +122,7 @@ def dispatch_cases(draw, sh):
 
 # ------------------------------------------------------------------------------
 OUTCOME = st.sampled_from(['ok'] * 10 + ['raise'] * 5 + ['hang'] * 5 + ['badmode'] * 3 +
-                          ['spawn_fail'] * 3 + ['late'] * 2 + ['die'] * 2)
+                          ['spawn_fail'] * 3 + ['late'] * 2 + ['preempt'] * 2 + ['die'] * 2)
 
 
 @st.composite
@@ -136,7 +136,7 @@ def worker_cases(draw):
         reqs.append({'c': draw(st.integers(1, max(1, cores // 3) if small else cores)),
                      'g': draw(st.integers(0, min(1, gpus) if small else gpus)),
                      'out': oc,
-                     'tout': 5 if oc in ('hang', 'late') else draw(st.sampled_from([0, 0, 5]))})
+                     'tout': 5 if oc in ('hang', 'late', 'preempt') else draw(st.sampled_from([0, 0, 5]))})
     ops = draw(st.lists(st.one_of(
         st.tuples(st.just('req'), st.integers(1, 4)),
         st.tuples(st.just('req'), st.integers(2, 4)),
